@@ -264,6 +264,9 @@ def judge(script, obs):
     if obs.get('died_at') is not None and not obs.get('quit_sent'):
         probs.append('exit-before-quit=%s' % obs.get('exit_code'))
         cls = cls or 'exit-before-quit'
+    elif obs.get('unresponsive'):
+        probs.append('quit-not-honoured-without-traffic')
+        cls = cls or 'unresponsive'
     elif obs.get('frozen_at') is not None:
         probs.append('no-heartbeat')
         cls = cls or 'frozen'
